@@ -113,8 +113,11 @@ type World struct {
 	firstSet map[int]bool
 }
 
-// New builds a cluster of n honest members on one in-memory network.
-func New(t testing.TB, b *Beacon, n int) (*World, error) {
+// testingTB is what the constructors need from a test.
+type testingTB = testing.TB
+
+// newWorld builds a cluster of n members of which the first `real` run the real component.
+func newWorld(t testing.TB, b *Beacon, n, real int) (*World, []*k1.PrivateKey, []peer.ID, error) {
 	t.Helper()
 	ctx, cancel := context.WithCancel(context.Background())
 	w := &World{N: n, Net: fakenet.New(), ctx: ctx, cancel: cancel}
@@ -125,17 +128,17 @@ func New(t testing.TB, b *Beacon, n int) (*World, error) {
 		k, err := k1.GeneratePrivateKey()
 		if err != nil {
 			cancel()
-			return nil, err
+			return nil, nil, nil, err
 		}
 		id, err := p2p.PeerIDFromKey(k.PubKey())
 		if err != nil {
 			cancel()
-			return nil, err
+			return nil, nil, nil, err
 		}
 		keys, ids = append(keys, k), append(ids, id)
 		peers = append(peers, p2p.Peer{ID: id, Index: i, Name: p2p.PeerName(id)})
 	}
-	for i := 0; i < n; i++ {
+	for i := 0; i < real; i++ {
 		nd := &Node{Idx: i}
 		c, err := cqbft.NewConsensus(ctx, b.Mock, w.Net.Host(ids[i]), new(p2p.Sender), peers, keys[i], deadliner{ch: make(chan core.Duty)},
 			func(core.Duty) bool { return true }, func(*pbv1.SniffedConsensusInstance) {
@@ -145,7 +148,7 @@ func New(t testing.TB, b *Beacon, n int) (*World, error) {
 			}, false)
 		if err != nil {
 			cancel()
-			return nil, err
+			return nil, nil, nil, err
 		}
 		c.SubscribePriority(func(_ context.Context, duty core.Duty, msg *pbv1.PriorityResult) error {
 			w.seqMu.Lock()
@@ -163,6 +166,16 @@ func New(t testing.TB, b *Beacon, n int) (*World, error) {
 		w.Nodes = append(w.Nodes, nd)
 	}
 
+	return w, keys, ids, nil
+}
+
+// New builds a cluster of n honest members on one in-memory network.
+func New(t testing.TB, b *Beacon, n int) (*World, error) {
+	t.Helper()
+	w, _, ids, err := newWorld(t, b, n, n)
+	if err != nil {
+		return nil, err
+	}
 	idx := map[peer.ID]int{}
 	for i, id := range ids {
 		idx[id] = i
